@@ -470,6 +470,10 @@ class SimMP(object):
     def set_start_method(*a, **k):
         pass
 
+    @staticmethod
+    def cpu_count():
+        return 64
+
 
 # ------------------------------------------------------------------------------
 # subprocess
